@@ -80,4 +80,46 @@ theorem decode_eq_some_iff (s bs : List Nat) :
     decode s = some bs ↔ (encode bs = s ∧ ∀ b ∈ bs, b < 256) :=
   ⟨encode_decode s bs, fun ⟨e, hb⟩ => e ▸ decode_encode bs hb⟩
 
+/-- every alphabet character is a printable ASCII character other than `"` and `\` -/
+theorem ch_plain (n : Nat) : 43 ≤ ch n ∧ ch n ≤ 122 ∧ ch n ≠ 92 ∧ ch n ≠ 61 := by
+  unfold ch
+  split <;> (try split) <;> (try split) <;> (try split) <;> omega
+
+def PlainChar (c : Nat) : Prop := 43 ≤ c ∧ c ≤ 122 ∧ c ≠ 92
+
+/-- the text of a binary has four characters per started group of three bytes, and every character is printable
+    ASCII that a JSON string or a header carries unescaped -/
+theorem encode_shape : ∀ (bs : List Nat), (encode bs).length = 4 * ((bs.length + 2) / 3) ∧ ∀ c ∈ encode bs, PlainChar c
+  | [] => by simp [encode]
+  | [a] => by
+    refine ⟨by simp [encode], ?_⟩
+    intro c hc
+    simp only [encode, List.mem_cons, List.not_mem_nil, or_false] at hc
+    rcases hc with rfl | rfl | rfl | rfl
+    · have := ch_plain (a / 4); exact ⟨this.1, this.2.1, this.2.2.1⟩
+    · have := ch_plain ((a % 4) * 16); exact ⟨this.1, this.2.1, this.2.2.1⟩
+    · unfold PlainChar; omega
+    · unfold PlainChar; omega
+  | [a, b] => by
+    refine ⟨by simp [encode], ?_⟩
+    intro c hc
+    simp only [encode, List.mem_cons, List.not_mem_nil, or_false] at hc
+    rcases hc with rfl | rfl | rfl | rfl
+    · have := ch_plain (a / 4); exact ⟨this.1, this.2.1, this.2.2.1⟩
+    · have := ch_plain ((a % 4) * 16 + b / 16); exact ⟨this.1, this.2.1, this.2.2.1⟩
+    · have := ch_plain ((b % 16) * 4); exact ⟨this.1, this.2.1, this.2.2.1⟩
+    · unfold PlainChar; omega
+  | a :: b :: c :: rest => by
+    obtain ⟨ih1, ih2⟩ := encode_shape rest
+    constructor
+    · simp only [encode, List.length_cons, ih1]; omega
+    · intro x hx
+      simp only [encode, List.mem_cons] at hx
+      rcases hx with rfl | rfl | rfl | rfl | hx
+      · have := ch_plain (a / 4); exact ⟨this.1, this.2.1, this.2.2.1⟩
+      · have := ch_plain ((a % 4) * 16 + b / 16); exact ⟨this.1, this.2.1, this.2.2.1⟩
+      · have := ch_plain ((b % 16) * 4 + c / 64); exact ⟨this.1, this.2.1, this.2.2.1⟩
+      · have := ch_plain (c % 64); exact ⟨this.1, this.2.1, this.2.2.1⟩
+      · exact ih2 x hx
+
 end ConjureVerif.Base64
